@@ -4,7 +4,7 @@
 From Coq Require Import NArith ZArith List Bool.
 Import ListNotations.
 Require Import UV.Gen.Consts UV.Mcount.Model UV.Mcount.Forest UV.Mcount.PlainStep UV.Mcount.PlainProofs
-  UV.Mcount.Codec UV.Mcount.PlainMore UV.Mcount.Overflow UV.Mcount.Embed UV.Mcount.EmbedMore UV.Mcount.Check UV.Mcount.Monotone.
+  UV.Mcount.Codec UV.Mcount.PlainMore UV.Mcount.Overflow UV.Mcount.Embed UV.Mcount.EmbedMore UV.Mcount.Check UV.Mcount.Monotone UV.Mcount.Threads.
 Local Open Scope N_scope.
 
 (* Writer and readers agree on the record word: the hand-packed word of record_ret_stack decodes,
@@ -116,3 +116,18 @@ Theorem C02_stream_at_any_instant : forall c, no_switch c -> forall f, all_ended
   exists g l, emb g f /\ out (fst (exec c p (init, []))) ++ l = flat_map (history 0) g.
 Proof. exact stream_at_any_instant. Qed.
 Print Assumptions C02_stream_at_any_instant.
+
+(* Threads: the hook state is per thread except for the global trace switch.  For every option set without a
+   trace_on/trace_off trigger and EVERY interleaving [l] of the threads' hook calls (pairs thread, event), each
+   thread's stream is the stream of its own events run alone ... *)
+Theorem C02_thread_stream_any_schedule : forall c, no_switch c -> forall l t,
+  out (fst (snd (mrun c l all_init) t)) = out (fst (exec c (mine t l) (init, []))).
+Proof. exact thread_stream_any_schedule. Qed.
+Print Assumptions C02_thread_stream_any_schedule.
+
+(* ... hence, in the plain configuration, exactly the specification of that thread's call forest *)
+Theorem C02_each_thread_is_its_history : forall thr gd ms sh l t f,
+  mine t l = flat_forest f -> all_timed f -> heights f <= ms ->
+  out (fst (snd (mrun (plain thr gd ms sh) l all_init) t)) = flat_map (recs thr gd 0) f.
+Proof. exact each_thread_is_its_history. Qed.
+Print Assumptions C02_each_thread_is_its_history.
